@@ -32,7 +32,8 @@ INFO = {
     ],
 }
 EXPECTED_PROBES = ("wrapped_line", "exact_width_line", "clear_n_with_wrapped", "clear_middle_section",
-                   "overwrite_upper_section", "three_sections", "styled_line", "indented_section")
+                   "overwrite_upper_section", "three_sections", "styled_line", "indented_section",
+                   "real_stream_output", "style_added_at_run_time", "flagged_write")
 
 WORDS = ["", "a", "ok", "<info>done</info>", "<comment>x</comment><b>y</b>", "état"]
 
@@ -60,13 +61,17 @@ def gen(S, tier):
     cfg = {"width": width, "ansi": c.chance(0.85), "forced": c.chance(0.2),
            # an ANSI-capable stream behind a formatter that disables decoration (tty + --no-ansi)
            "plain_formatter": c.chance(0.12),
+           # clikit's own StreamOutputStream over a simulated text file (what is not flushed is not on screen)
+           "real_stream": c.chance(0.25),
            "pre": [("p" * c.randint(1, width + 3)) for _ in range(c.randint(0, 2))],
            "indent": c.pick([0, 0, 0, 1, 2, 4])}
     w = S("workload")
     ops = [["new"]]
     nsec = 1
     wt = {"new": w.pick([1, 2]), "write_line": w.pick([4, 8]), "write": w.pick([0, 2]),
-          "overwrite": w.pick([1, 3]), "clear": w.pick([1, 2]), "clear_n": w.pick([0, 1, 3])}
+          "overwrite": w.pick([1, 3]), "clear": w.pick([1, 2]), "clear_n": w.pick([0, 1, 3]),
+          "add_style": w.pick([0, 0, 1])}
+    styles_added = 0
     for _ in range(w.randint(1, 40 if tier == "thorough" else 25)):
         k = w.weighted(list(wt.items()))
         if k == "new":
@@ -74,12 +79,23 @@ def gen(S, tier):
                 ops.append(["new"])
                 nsec += 1
             continue
+        if k == "add_style":
+            # a style registered at run time, used by later lines (tag longer than its effect on the row count)
+            styles_added += 1
+            ops.append(["add_style", "warn%d" % styles_added])
+            continue
         sid = w.randrange(nsec)
         if k in ("write_line", "write", "overwrite"):
             text = _line(w, width)
+            if styles_added and w.chance(0.5):
+                n = w.pick([3, width - 6, width - 1, width])
+                text = "<warn%d>%s</warn%d>" % (styles_added, "w" * max(1, n), styles_added)
             if w.chance(0.25):
                 text += "\n" + _line(w, width)
-            ops.append([k, sid, text])
+            op = [k, sid, text]
+            if k != "overwrite" and w.chance(0.12):
+                op.append(w.pick([1, 2, 4]))  # a verbosity flag above the output's (normal) verbosity
+            ops.append(op)
         elif k == "clear":
             ops.append(["clear", sid, None])
         else:
@@ -145,7 +161,12 @@ def _run(sc, cfg):
     log = EventLog()
     width = cfg["width"]
     screen = Screen(width)
-    stream = SimOutputStream("out", log, ansi=cfg["ansi"], screen=screen)
+    if cfg.get("real_stream"):
+        from ..realstream import RealStreamOutput, SimFile
+        stream = RealStreamOutput(SimFile("out", log, screen=screen), cfg["ansi"])
+        res.probe("real_stream_output")
+    else:
+        stream = SimOutputStream("out", log, ansi=cfg["ansi"], screen=screen)
     if cfg.get("plain_formatter"):
         from clikit.formatter import PlainFormatter
         fmtr = PlainFormatter()
@@ -199,18 +220,27 @@ def _run(sc, cfg):
             if len(sections) == 3:
                 res.probe("three_sections")
             continue
+        if k == "add_style":
+            from clikit.api.formatter import Style
+            fmtr.add_style(Style(op[1]).fg("yellow").bold())
+            log.add("add_style", op[1])
+            res.probe("style_added_at_run_time")
+            continue
         sid = op[1]
         if sid >= len(sections):
             continue
         s = sections[sid]
+        flags = op[3] if len(op) > 3 and k in ("write_line", "write") else None
         before_lines = [vis(x).rstrip() for x in _split(s.content)]
         n_before = len(stream.writes)
         log.add("op", k, sid, op[2])
         try:
             if k == "write_line":
-                s.write_line(op[2])
+                s.write_line(op[2], flags) if flags else s.write_line(op[2])
             elif k == "write":
-                s.write(op[2])
+                s.write(op[2], flags) if flags else s.write(op[2])
+            if flags:
+                res.probe("flagged_write")
             elif k == "overwrite":
                 s.overwrite(op[2])
                 if sid < len(sections) - 1:
@@ -252,6 +282,8 @@ def _run(sc, cfg):
                 res.violate("plain_control", k, "control bytes on a non-ANSI output: %r" % data[:60])
             if k == "clear" and data:
                 res.violate("plain_control", "clear", "clear wrote %r on a non-ANSI output" % data[:60])
+            if flags:
+                continue  # whether a flagged line is shown is the gate's business (C10)
             if k in ("write_line", "overwrite"):
                 want = "\n".join((ind + x) if x else x for x in vis(op[2]).split("\n")) + "\n"
                 if data != want:
@@ -263,7 +295,11 @@ def _run(sc, cfg):
             continue
 
         # ---- content vs reference model ------------------------------------------------------
-        if k in ("write_line", "write"):
+        if flags:
+            # whether a flagged write is shown is the gate's business (C10); whatever the section
+            # decided, the screen must equal its content
+            model[sid] = list(after_lines)
+        elif k in ("write_line", "write"):
             model[sid] = model[sid] + new
         elif k == "overwrite":
             model[sid] = list(new)
